@@ -176,4 +176,32 @@ func genBech32() {
 func genBip39()  {}
 func genCurl()   {}
 func genPow()    {}
-func genMisc()   {}
+func genMisc() {
+	genAddress()
+}
+
+func genAddress() {
+	p := repoPkg("pkg/bech32/address")
+	g := newGen("Address")
+	g.def("hrpStrings", "List (List Nat)", p.compositeStrings(p.varExpr("hrpStrings")))
+	g.def("versionEd25519", "Int", p.intConst("Ed25519"))
+	g.def("versionAlias", "Int", p.intConst("Alias"))
+	g.def("versionNFT", "Int", p.intConst("NFT"))
+	g.def("blake2b160Length", "Int", p.intConst("Blake2b160Length"))
+	g.def("prefixConsts", "List Int", "["+p.intConst("IOTAMainnet")+", "+p.intConst("IOTADevnet")+", "+p.intConst("ShimmerMainnet")+", "+p.intConst("ShimmerDevnet")+"]")
+	g.src(p, "Bech32", "ParseBech32", "ParsePrefix", "Prefix.String",
+		"Ed25519Address.Bytes", "AliasAddress.Bytes", "NFTAddress.Bytes",
+		"Ed25519Address.Version", "AliasAddress.Version", "NFTAddress.Version")
+	m := repoPkg("pkg/migration")
+	g.def("migPrefix", "List Nat", leanBytes(m.stringConst("Prefix")))
+	g.def("migSuffix", "List Nat", leanBytes(m.stringConst("Suffix")))
+	g.def("migChecksumSize", "Int", m.intConst("ChecksumSize"))
+	g.def("migAddressSize", "Int", m.intConst("Ed25519AddressSize"))
+	c := load(filepath.Join(iotaGoDir(), "consts"))
+	g.def("hashTrytesSize", "Int", c.intConst("HashTrytesSize"))
+	g.def("tritsPerTryte", "Int", c.intConst("TritsPerTryte"))
+	g.src(m, "Encode", "Decode")
+	gd := load(filepath.Join(iotaGoDir(), "guards"))
+	g.src(gd, "IsTrytesOfExactLength")
+	g.write()
+}
